@@ -224,6 +224,8 @@ class C11(spec.Spec):
                     out.filters["machinery:independent-reader-disagrees-with-foreign-writer"] += 1
                     out.notes["machinery %s %r %s" % (fmt, dia, (problems or ["content"])[0][:80])] += 1
                     continue
+                for dname, _site in dia:
+                    out.outcomes["texts-with:%s:%s" % (fmt, dname)] += 1  # (vacuity: a deviation without texts is dead)
                 self.judge_text(text, fmt, m, ("gen", tag, fmt, repr(dia), repr(m)), out, "gen:%s:%s" % (fmt, dia))
         if len(out.samples) < 1:
             out.samples.append({"reference_document": tag, "dialects_tried": len(dialects)})
